@@ -175,6 +175,15 @@ def gen_case(rnd, st):
         for k in range(nrec):
             vals.append(rnd.choice(mags) * rnd.choice([1, 1, -1, 2.5]))
             mask.append(1 if rnd.random() < 0.25 else 0)
+            if not scaled and rnd.random() < 0.15:
+                # (seven significant digits: not in the scaled-text cases)
+                # a valid value next to this variable's OWN missing code: it
+                # differs from the code in the 6th or 7th significant digit
+                vals[-1] = float('%.6e' % (miss * (1 + rnd.choice(
+                    [4e-6, -4e-6, 1e-6, 6e-7]))))
+                if float('%.6e' % vals[-1]) == float('%.6e' % miss):
+                    vals[-1] = 1.0
+                mask[-1] = 0
             if rnd.random() < 0.2:
                 # a valid value that equals ANOTHER variable's missing code
                 other = [c for c in (-999, -9999, -99999, -888) if c != miss]
